@@ -18,6 +18,9 @@ type dirEval struct {
 	isNil                map[string]bool // tracked error variables
 	piped                bool            // streams.PipeData was reached
 	unknown              string          // first thing the evaluator could not decide
+	// the scenarios without a usable forward address (c16DirectGuard): no address / empty host / empty scheme
+	fwdNil, hostEmpty, schemeEmpty bool
+	dialed                         bool // a dial was reached
 }
 
 func (e *dirEval) giveUp(what string) {
@@ -49,9 +52,9 @@ func (e *dirEval) cond(x ast.Expr) (v bool, ok bool) {
 			a, ok1 := e.cond(c.X)
 			b, ok2 := e.cond(c.Y)
 			if c.Op == token.LOR {
-				return a || b, ok1 && ok2
+				return a || b, ok1 && (a || ok2) // short circuit, as the code
 			}
-			return a && b, ok1 && ok2
+			return a && b, ok1 && (!a || ok2)
 		case token.EQL, token.NEQ:
 			l, r := flat(c.X), flat(c.Y)
 			if l == "nil" || l == `""` {
@@ -62,13 +65,17 @@ func (e *dirEval) cond(x ast.Expr) (v bool, ok bool) {
 			case r == "nil":
 				if n, tracked := e.isNil[l]; tracked {
 					eq = n
-				} else if l == "forward" || l == "l.Forward" || l == "direct" {
+				} else if l == "forward" || strings.HasSuffix(l, ".Forward") {
+					eq = e.fwdNil
+				} else if l == "direct" {
 					eq = false // the scenarios have a forward address, and a dialled connection when asked
 				} else {
 					return false, false
 				}
-			case r == `""` && (strings.HasSuffix(l, ".Host") || strings.HasSuffix(l, ".Scheme")):
-				eq = false
+			case r == `""` && strings.HasSuffix(l, ".Host"):
+				eq = e.hostEmpty
+			case r == `""` && strings.HasSuffix(l, ".Scheme"):
+				eq = e.schemeEmpty
 			default:
 				return false, false
 			}
@@ -95,6 +102,7 @@ func (e *dirEval) assign(lhs []ast.Expr, rhs []ast.Expr) {
 	switch {
 	case strings.HasPrefix(r, "net.Dial(") || strings.Contains(r, ".Dial(") || strings.Contains(r, ".DialTimeout(") || strings.Contains(r, ".DialContext("):
 		e.isNil[last] = !e.dialFails
+		e.dialed = true
 	case strings.Contains(r, "PipeData("):
 		e.piped = true
 		e.isNil[last] = !e.pipeFails
